@@ -413,6 +413,25 @@ class TT(Kind):
     def __iter__(self):
         raise TypeError("iteration over an abstract tensor")
 
+    _INPLACE = {"mul_": operator.mul, "div_": operator.truediv, "add_": operator.add, "sub_": operator.sub}
+
+    def __getattr__(self, name):
+        """Tensor methods without a typing rule: the call is recorded as untypable (never an AttributeError of the checker)."""
+        if name.startswith("_"):
+            raise AttributeError(name)
+        if name in TT._INPLACE:
+            def inplace(other, *a, **k):
+                r = binary(TT._INPLACE[name], self, other)
+                if self.buf is not None:
+                    r = poison(f"in-place {name} on a row buffer", self, cat="writes")
+                self.__dict__.update({k2: v for k2, v in r.__dict__.items() if k2 != "buf"})
+                return self
+            return inplace
+
+        def no_rule(*a, **k):
+            return untypable(f"tensor method .{name}()", self)
+        return no_rule
+
     def __bool__(self):
         raise OutOfSubset("truth value of an abstract tensor")
 
